@@ -50,6 +50,11 @@ type Obligation struct {
 	scriptQF     string
 	scriptAbs    string
 	scriptFull   string
+	asserts      []*Term
+	assertsFull  []*Term
+	assertsAbs   []*Term
+	assertsQF    []*Term
+	mterms       []*Term
 	knownFinding bool
 	inputs       []*inputNode
 	candidateQF  bool
